@@ -18,7 +18,9 @@ def main():
     engines = {}
     for pid in claimed:
         P = registry.PROPS[pid]
-        hs = [h for u in P["units"] if u["engine"] == "kani" for h in u["harnesses"]]
+        allh = [h for u in P["units"] if u["engine"] == "kani" for h in u["harnesses"]]
+        hs = [h for h in allh if h.get("tier", "quick") in ("quick", "thorough")]
+        nX = len(allh) - len(hs)
         nP = sum(1 for h in hs if h.get("cls") == "P")
         nB = len(hs) - nP
         has_v = any(u["engine"] == "verus" for u in P["units"])
@@ -31,7 +33,8 @@ def main():
         note = P.get("level_note") or (
             "Trusted: Kani 0.68/CBMC 6.11/CaDiCaL" + (", Verus+Z3" if has_v else "") + "; "
             + (f"{nP} harnesses in the proved class (loop-free / width-bounded, full-domain inputs), "
-               f"{nB} bounded stand-ins (bounds in evidence.coverage.bounded_stand_ins). ")
+               f"{nB} bounded stand-ins (bounds in evidence.coverage.bounded_stand_ins)"
+               + (f"; {nX} further harnesses are written but do not discharge here (tier experimental, never run, listed as not decided). " if nX else ". "))
             + ("Assumptions: " + "; ".join(P.get("assumptions", [])) + ". " if P.get("assumptions") else "")
             + ("NOT decided: " + "; ".join(P.get("not_decided", [])) if P.get("not_decided") else ""))[:3000]
         tech = P.get("technique") or (
